@@ -197,6 +197,8 @@ pub struct Outcome {
     pub warnings: Vec<String>,
 }
 
+static ESTABLISHED: std::sync::Mutex<Option<(Mode, World)>> = std::sync::Mutex::new(None);
+
 pub struct World {
     pub mode: Mode,
     pub ep: [Conn; 2],
@@ -252,7 +254,15 @@ impl World {
             };
         }
         if mode.init_online {
+            // the warm-up is expensive (seq_start acknowledged chunks each way): do it once
+            let mut g = ESTABLISHED.lock().unwrap();
+            if let Some((m, base)) = g.as_ref() {
+                if *m == mode {
+                    return base.vclone();
+                }
+            }
             w.establish();
+            *g = Some((mode, w.vclone()));
         }
         w
     }
@@ -288,6 +298,11 @@ impl World {
             guard += 1;
         }
         // the acceptor comes online with the first chunks packet
+        self.raw_send(0, &[0u8], false);
+        self.flush(0);
+        while !self.net[0].is_empty() {
+            self.deliver(0, 0, false);
+        }
         let n = self.mode.seq_start as u32;
         for k in 0..std::cmp::max(n, 1) {
             for e in 0..2 {
@@ -949,9 +964,4 @@ impl World {
     }
 }
 
-pub mod drive {
-    pub fn main(_args: &[String]) -> i32 {
-        eprintln!("drive: not built yet");
-        2
-    }
-}
+pub mod drive;
